@@ -370,20 +370,30 @@ Section TermProofs.
     - now apply compile_drops_fresh.
   Qed.
 
-  (* the render loop: poll; drop when too many frames are pending; write the frame *)
+  (* the render loop of terminal.rs (run_render): poll; frames_drop when more than 32 frames are
+     pending; then everything the iteration writes - the renderer's clear after a drop or a
+     resize, what the handler writes itself, the frame.  The poll may queue output of its own
+     (the size query on SIGWINCH in escape sequence resize mode, replies of the image handler):
+     harmless in an iteration that does not drop; in one that does, those bytes are a fragment
+     that the drop discards while the rest of its flush-delimited frame follows (what C16_frames
+     says then: the fragment is a frame of its own, dropped whole). *)
   Definition render_iteration (it : list round * bool * list (list A)) : list top :=
     let '(sched, dropit, frame) := it in
     TPoll sched :: (if dropit then [TDrop] else []) ++ map TWrite frame.
 
+  Definition iteration_ok (it : list round * bool * list (list A)) : Prop :=
+    snd (fst it) = true -> existsb is_internal (fst (fst it)) = false.
+
   Lemma render_loop_drops_fresh : forall (its : list (list round * bool * list (list A))) fresh,
-    Forall (fun it => existsb is_internal (fst (fst it)) = false) its ->
+    Forall iteration_ok its ->
     tdrops_fresh fresh (concat (map render_iteration its)).
   Proof.
     induction its as [|[[sched d] frame] its IH]; intros fresh H; [exact I|].
-    inversion H as [|? ? Hs Hr]; subst. cbn [fst] in Hs.
-    cbn [map concat render_iteration app tdrops_fresh]. rewrite Hs. cbn [negb].
+    inversion H as [|? ? Hs Hr]; subst. unfold iteration_ok in Hs. cbn [fst snd] in Hs.
+    cbn [map concat render_iteration app tdrops_fresh].
     assert (Hw : forall (ws : list (list A)) f, tdrops_fresh f (map TWrite ws ++ concat (map render_iteration its))).
     { induction ws as [|w ws IHw]; intro f; cbn; auto. }
-    destruct d; cbn [app tdrops_fresh]; [split; auto|]; apply Hw.
+    destruct d; cbn [app tdrops_fresh]; [|apply Hw].
+    rewrite (Hs eq_refl). cbn [negb]. split; auto.
   Qed.
 End TermProofs.
